@@ -544,7 +544,60 @@ func (e *SpecEnv) evalQuant(x *SQuant) Val {
 	if x.Forall {
 		q = "forall"
 	}
-	return Val{T: types.Typ[types.Bool], S: fmt.Sprintf("(%s (%s) %s)", q, strings.Join(binders, " "), b)}
+	qt := fmt.Sprintf("(%s (%s) %s)", q, strings.Join(binders, " "), b)
+	if !x.Forall && len(x.Vars) == 1 && pats == "" && c.qdepth == 0 {
+		// witnesses: an existential over an index is implied by each of its instances at an index the code itself
+		// uses. The disjunction is logically equivalent to the existential alone; it only spares the solver the search
+		// (E-matching misses `off + (i + 1)` once the sum has been flattened).
+		bound := strings.Fields(strings.Trim(binders[0], "()"))[0]
+		if strings.HasSuffix(binders[0], " "+c.so.idxSort()+")") {
+			ds := []string{qt}
+			for _, w := range c.idxTerms {
+				ds = append(ds, replaceSymbol(b, bound, w))
+			}
+			if len(ds) > 1 {
+				qt = "(or " + strings.Join(ds, " ") + ")"
+			}
+		}
+	}
+	return Val{T: types.Typ[types.Bool], S: qt}
+}
+
+// replaceSymbol substitutes the SMT symbol `sym` (whole token) by `with` in term t.
+func replaceSymbol(t, sym, with string) string {
+	var b strings.Builder
+	for i := 0; i < len(t); {
+		j := strings.Index(t[i:], sym)
+		if j < 0 {
+			b.WriteString(t[i:])
+			break
+		}
+		j += i
+		end := j + len(sym)
+		okL := j == 0 || strings.ContainsRune(" ()", rune(t[j-1]))
+		okR := end == len(t) || strings.ContainsRune(" ()", rune(t[end]))
+		b.WriteString(t[i:j])
+		if okL && okR {
+			b.WriteString(with)
+		} else {
+			b.WriteString(sym)
+		}
+		i = end
+	}
+	return b.String()
+}
+
+// noteIdxTerm records an index the code uses (candidate witnesses for existentials, at most a dozen distinct ones).
+func (c *FuncCtx) noteIdxTerm(t string) {
+	if len(c.idxTerms) >= 12 {
+		return
+	}
+	for _, x := range c.idxTerms {
+		if x == t {
+			return
+		}
+	}
+	c.idxTerms = append(c.idxTerms, t)
 }
 
 func (e *SpecEnv) derefIfPtrToStruct(v Val) (Val, *types.Struct, bool) {
@@ -566,6 +619,22 @@ func (e *SpecEnv) evalSelector(x *SSelector) Val {
 					if obj, ok := imp.Scope().Lookup(x.Sel).(*types.Const); ok {
 						return Val{T: obj.Type(), S: c.constTerm(obj.Val(), constType(obj.Type()))}
 					}
+					if o, ok := imp.Scope().Lookup(x.Sel).(*types.Var); ok && c.eng != nil {
+						// a package-level variable of an imported package
+						if g := c.eng.globalFor(o); g != nil {
+							if name, ok := c.globalErrConst(g, o.Type()); ok {
+								return Val{T: o.Type(), S: name}
+							}
+							fr := e.f
+							if fr == nil {
+								fr = c.newFrame(nil, nil)
+							}
+							if e.st == nil {
+								e.fail("global %s.%s used without a state", id.Name, x.Sel)
+							}
+							return Val{T: o.Type(), S: c.load(e.st, fr.val(g).P, o.Type())}
+						}
+					}
 				}
 			}
 		}
@@ -575,6 +644,18 @@ func (e *SpecEnv) evalSelector(x *SSelector) Val {
 	_ = indirect
 	fld, ok := obj.(*types.Var)
 	if !ok || fld == nil {
+		// an unexported field of a type from another package (specifications may name it; Go code could not)
+		t := base.T.Underlying()
+		if pt, isPtr := t.(*types.Pointer); isPtr {
+			t = pt.Elem().Underlying()
+		}
+		if st, isStruct := t.(*types.Struct); isStruct {
+			for i := 0; i < st.NumFields(); i++ {
+				if st.Field(i).Name() == x.Sel {
+					return e.selectField(base, i)
+				}
+			}
+		}
 		e.fail("no field %s in %v", x.Sel, base.T)
 	}
 	cur := base
@@ -687,6 +768,24 @@ func (e *SpecEnv) evalCall(x *SCall) Val {
 			ne.st = e.old
 			ne.oldMode()
 			return ne.eval(x.Args[0])
+		case "atentry":
+			// atentry(E), in a loop invariant: the value E had when the loop was entered (before its first iteration)
+			if e.f == nil || e.f.curLoop == nil || e.f.loopEntry[e.f.curLoop] == nil {
+				e.fail("atentry() is only available in loop invariants")
+			}
+			h := e.f.curLoop
+			le := e.f.loopEntry[h]
+			ne := e.clone()
+			ne.st, ne.block, ne.atEnd = le.st, h, false
+			saved, had := e.f.hdrPhis[h]
+			e.f.hdrPhis[h] = le.phis
+			v := ne.eval(x.Args[0])
+			if had {
+				e.f.hdrPhis[h] = saved
+			} else {
+				delete(e.f.hdrPhis, h)
+			}
+			return v
 		case "len", "cap":
 			a := e.eval(x.Args[0])
 			switch u := a.T.Underlying().(type) {
@@ -803,6 +902,23 @@ func (e *SpecEnv) evalCall(x *SCall) Val {
 					return pv
 				}
 				e.fail("returned(%s): no call of %s precedes this point", id.Name, id.Name)
+			}
+			if hist := c.callHist[id.Name]; len(hist) > 1 && e.f != nil {
+				// several calls: the latest one that happened on the path to this point
+				var vs []Val
+				var conds []string
+				mergeable := true
+				for i := len(hist) - 1; i >= 0; i-- {
+					vs = append(vs, hist[i].val)
+					conds = append(conds, hist[i].cond)
+					if hist[i].val.P != nil || hist[i].val.Clo != nil {
+						mergeable = false
+					}
+				}
+				if mergeable {
+					c.qcount++
+					return e.f.mergeVals(v.T, vs, conds, fmt.Sprintf("%sret_%s_%d", e.f.prefixSym(), sanitize(id.Name), c.qcount))
+				}
 			}
 			if cb := c.lastCallBlock[id.Name]; cb != nil && e.block != nil && cb != e.block && !cb.Dominates(e.block) {
 				// the call may not have happened on the path to this point: the clause has to be guarded by a
